@@ -398,10 +398,25 @@ def serialize(ctx, F):
     A = an.of(F, ins[0])
     b = A.body
     exts = []
+    flat = []
     for bb, t in b.calls():
-        if "Extend" in (M.callee_key(t) or "") and "::extend" in (M.callee_key(t) or ""):
-            a1 = N(A.tb.operand(t["args"][1], (bb, len(b.stmts(bb)))))
-            exts.append((bb, a1))
+        ck = M.callee_key(t) or ""
+        at_ = (bb, len(b.stmts(bb)))
+        if ("Extend" in ck and "::extend" in ck) or ck.endswith("::extend_from_slice") or "::extend_from_slice" in ck:
+            a1 = N(A.tb.operand(t["args"][1], at_))
+            # extend_from_slice(&arr) takes the unsized view of the same array
+            if a1[0] == "unsize":
+                a1 = a1[1]
+            if a1[0] == "call" and ("Iterator>::flat_map" in str(a1[1]) or cn(a1[1]).endswith("Iterator::flat_map")) and len(a1[2]) == 2:
+                flat.append((bb, a1))
+            else:
+                exts.append((bb, a1))
+        elif ck.endswith("::to_vec") or "::to_vec" in ck or "slice::<impl [T]>::to_vec" in (M.callee_path(t) or ""):
+            # `[a, b, ..].to_vec()`: the whole content at once
+            a0 = N(A.tb.operand(t["args"][0], at_))
+            if a0[0] == "unsize":
+                a0 = a0[1]
+            exts.append((bb, a0))
     me = deref(arg(1))
     rgb = [e for e in exts if e[1][0] == "ref" and e[1][1][0] == "aggr" and len(e[1][1][2]) == 6]
     ok_rgb = False
@@ -423,6 +438,23 @@ def serialize(ctx, F):
               ins[0].get("span", ""), how="one extend(&[..6 bytes..]) in field order", why=str([G.show(e[1])[:120] for e in rgb]))
     idx = [e for e in exts if e not in rgb]
     ok_idx = False
+    if len(idx) == 1 and len(flat) == 1:
+        # count, then extend(palette.iter().flat_map(|c| [c.red, c.green, c.blue])): per colour in order (std: flat_map over a
+        # slice iterator concatenates the arrays in element order)
+        first = [e for e in idx if e[1][0] == "ref" and e[1][1][0] == "to_bytes" and e[1][1][3] == "u16"]
+        it_, clo = flat[0][1][2]
+        from .. import select as SEL
+        cf = SEL.closure_fn(F, clo, ins[0])
+        if len(first) == 1 and cf is not None and it_[0] == "call" and cn(it_[1]) == "core::slice::iter":
+            cnt = first[0][1][1][2]
+            crt, _ = an.of(F, cf).ret()
+            cr = N(crt) if crt is not None else None
+            order = []
+            if cr is not None and cr[0] == "aggr" and cr[1] == ("array",) and len(cr[2]) == 3:
+                for o in cr[2]:
+                    order.append(o[2] if o[0] == "fld" and SEL.unref(o[1]) == arg(2) else None)
+            same_palette = cnt[0] == "cast" and cnt[3] == "u16" and cnt[2][0] == "len" and SEL.unref(cnt[2][1]) == SEL.unref(it_[2][0])
+            ok_idx = same_palette and order == [0, 1, 2] and b.dominates(first[0][0], flat[0][0])
     if len(idx) == 2:
         first = [e for e in idx if e[1][0] == "ref" and e[1][1][0] == "to_bytes" and e[1][1][3] == "u16"]
         col = [e for e in idx if e[1][0] == "ref" and e[1][1][0] == "aggr" and len(e[1][1][2]) == 3]
